@@ -238,6 +238,51 @@ func checkC04(c *FileCase) *Violation {
 
 func genC04(t *rapid.T) *FileCase {
 	c := genC04Base(t)
+	if rapid.IntRange(0, 7).Draw(t, "keywordlabel") == 0 {
+		// a label may be called like a terminator command: 'end:' and 'return:' are ordinary labels
+		var labels []*Stmt
+		for _, sc := range c.File.Scripts() {
+			walkStmts(sc.Body, func(s *Stmt) {
+				if s.K == "label" {
+					labels = append(labels, s)
+				}
+			})
+		}
+		if len(labels) > 0 {
+			l := labels[rapid.IntRange(0, len(labels)-1).Draw(t, "keywordlabelwhich")]
+			oldName, newName := l.Label.Name, rapid.SampledFrom([]string{"end", "return"}).Draw(t, "keywordlabelname")
+			for _, tp := range c.File.Tops {
+				var blocks []*Block
+				if tp.K == "script" {
+					blocks = append(blocks, tp.Script.Body)
+				}
+				if tp.K == "mapscripts" {
+					for _, e := range tp.Map.Entries {
+						blocks = append(blocks, e.Body)
+						for _, r := range e.Rows {
+							blocks = append(blocks, r.Body)
+						}
+					}
+				}
+				for _, b := range blocks {
+					walkStmts(b, func(s *Stmt) {
+						if s.K == "label" && s.Label.Name == oldName {
+							s.Label.Name = newName
+						}
+						if s.K == "cmd" {
+							for _, a := range s.Cmd.Args {
+								for i, tk := range a.Toks {
+									if tk == oldName {
+										a.Toks[i] = newName
+									}
+								}
+							}
+						}
+					})
+				}
+			}
+		}
+	}
 	if rapid.IntRange(0, 7).Draw(t, "straycontinue") == 0 {
 		// a 'continue' that is not the last statement of its block, somewhere inside a loop: rejected by
 		// the compiler as it stands (the case is then skipped); a compiler that accepts it must still keep
@@ -297,6 +342,7 @@ func genC04Base(t *rapid.T) *FileCase {
 	}
 	cfg := DefaultFileCfg()
 	cfg.CF.MaxLabels = 4
+	cfg.CF.CondGoto = true // hand-written goto_if_set / goto_if_unset: execution goes on behind them
 	if rapid.Bool().Draw(t, "scriptsonly") {
 		cfg.Texts, cfg.Movements, cfg.Marts, cfg.Raws = false, false, false, false
 	}
